@@ -10,7 +10,9 @@ Inductive case :=
 | CTrace (prog : list Z) (base limit_pico : Z) (fuel : positive)
          (refs : list Z)            (* VerifRefs before each of the first instructions *)
          (impl : outcome)
-         (static : bool).           (* scparser.IsScriptCorrect(script, nil) == nil *)
+         (static : bool)            (* scparser.IsScriptCorrect(script, nil) == nil *)
+| CMethods (prog : list Z) (methods : list Z)
+           (verdict : bool).        (* every method offset < len(script) and IsScriptCorrect(script, offsets) == nil *)
 
 (* replay: returns (mechanism ok so far, specification ok so far) and the final result *)
 Fixpoint replay (fuel : nat) (s : state) (refs : list Z) (m sp : bool) : bool * bool * result :=
@@ -43,10 +45,15 @@ Definition check_case (c : case) : N :=
           if same && m && sp && Bool.eqb st static then 0%N
           else if same && sp && (st || negb static) then 1%N else 2%N
       end
+  | CMethods prog methods verdict =>
+      if negb (bytes_okb prog) || negb (forallb (fun m => 0 <=? m) methods) then 3%N else
+      let st := script_correct_m prog methods in
+      if Bool.eqb st verdict then 0%N else if st then 1%N else 2%N
   end.
 
 Definition model_view (c : case) :=
   match c with
   | CTrace prog base limit fuel refs impl static =>
       let '(m, sp, r) := replay (Pos.to_nat fuel) (init_state prog 1%N base limit) refs true true in (m, sp, outcome_of r, script_correct prog)
+  | CMethods prog methods verdict => (true, true, None, script_correct_m prog methods)
   end.
